@@ -31,7 +31,13 @@ EXTENDS Obs
 
 NoOp(c) == c >= 676 /\ c <= 685      \* 0x2a4 .. 0x2ad
 
-MonInit(p) == [p |-> p, pending |-> <<>>, down |-> {}, err |-> ""]
+\* Part 1c, identity under a remapping layer ("lay" \in DOMAIN p): p.lay = [k |-> code of the layer key, mode |-> "held"
+\* (layer-while-held: on while the key is down) | "flip" (layer-toggle / layer-switch: every press flips), remap |->
+\* Seq([c, o])]: the second layer maps key c to key o; on the base layer every key but k is left to itself.  A key
+\* pressed while the base layer is active is an identity key for the whole time it is held, whatever layer becomes
+\* active meanwhile: its repeats and its release come out as the same code.  Nothing is required here of keys
+\* pressed under the second layer (not this property's business) except I2.
+MonInit(p) == [p |-> p, pending |-> <<>>, down |-> {}, nav |-> FALSE, held |-> {}, err |-> ""]
 
 Lookup(tab, c) == LET I == {i \in DOMAIN tab : tab[i].c = c} IN
                   IF I = {} THEN <<>> ELSE <<tab[CHOOSE i \in I : TRUE]>>
@@ -48,6 +54,11 @@ Expected(p, press, c) ==
 HasNoOp(out) == \E i \in DOMAIN out : out[i][1] \in {"d", "u"} /\ out[i][2] \in 676..685
 
 PathsMode(p) == "paths" \in DOMAIN p
+LayOn(p) == "lay" \in DOMAIN p
+LayKey(p) == IF LayOn(p) THEN p.lay.k ELSE 0 - 1
+\* the code key c is pressed as, given the layer state
+PressedAs(m, c) == IF LayOn(m.p) /\ m.nav /\ Lookup(m.p.lay.remap, c) # <<>> THEN Lookup(m.p.lay.remap, c)[1].o ELSE c
+HeldAs(m, c) == LET H == {x \in m.held : x.c = c} IN IF H = {} THEN c ELSE (CHOOSE x \in H : TRUE).o
 
 MonIn(m, r) ==
   IF m.err # "" THEN m
@@ -59,11 +70,17 @@ MonIn(m, r) ==
     IF r.out # <<>> THEN Fail(m, "C11 I4: output while the input event was only queued")
     ELSE [m EXCEPT !.pending = Append(@, [p |-> r.e = "d", c |-> r.c])]
   ELSE IF r.e = "r" THEN
-    \* I5 an OS auto-repeat of a held key: at most a repeat of the same code; the reserved no-op codes are never sent
+    \* I5 an OS auto-repeat of a held key; the reserved no-op codes are never sent
     IF HasNoOp(r.out) THEN Fail(m, "C11 I2: a reserved no-op code was sent to the OS (repeat)")
-    ELSE IF InSeq(m.p.pseudo, r.c) \/ Lookup(m.p.btn, r.c) # <<>> \/ Lookup(m.p.wheel, r.c) # <<>> THEN m
-    ELSE IF r.out = <<>> \/ r.out = <<<<"d", r.c>>>> THEN m
-    ELSE Fail(m, "C11 I1: the repeat of a key did not come out as the same OS code")
+    ELSE IF InSeq(m.p.pseudo, r.c) \/ Lookup(m.p.btn, r.c) # <<>> \/ Lookup(m.p.wheel, r.c) # <<>> \/ r.c = LayKey(m.p) THEN m
+    ELSE IF (\E i \in DOMAIN m.pending : m.pending[i].c = r.c) \/ {x \in m.held : x.c = r.c} = {}
+    THEN \* the key's own press / release is still queued, or it is not down: at most a repeat of the code
+         IF r.out = <<>> \/ (Len(r.out) = 1 /\ r.out[1][1] = "d" /\ (r.out[1][2] = r.c \/ LayOn(m.p))) THEN m
+         ELSE Fail(m, "C11 I1: the repeat of a key did not come out as the same OS code")
+    ELSE IF HeldAs(m, r.c) # r.c THEN m          \* pressed under the second layer
+    ELSE IF NoOp(r.c) THEN (IF r.out = <<>> THEN m ELSE Fail(m, "C11 I2: a reserved no-op code produced output (repeat)"))
+    ELSE IF r.out = <<<<"d", r.c>>>> THEN m
+    ELSE Fail(m, "C11 I5: the repeat of a held identity key did not come out as a repeat of the same code")
   ELSE Fail(m, "C11: input kind outside the instance")
 
 
@@ -74,16 +91,24 @@ MonTick(m, out, idle, cb) ==
   ELSE IF m.pending = <<>>
   THEN IF out # <<>> THEN Fail(m, "C11 I4: output without input") ELSE m
   ELSE LET ev == Head(m.pending)
-           m1 == [m EXCEPT !.pending = Tail(@)]
-           exp == Expected(m.p, ev.p, ev.c)
-       IN IF InSeq(m.p.pseudo, ev.c)
-          THEN IF out = <<>> \/ out = exp THEN m1
-               ELSE Fail(m1, "C11 I4: a pseudo code produced foreign output")
-          ELSE IF out = exp THEN m1
-          ELSE IF NoOp(ev.c) THEN Fail(m1, "C11 I2: a reserved no-op code produced output")
-          ELSE IF Lookup(m.p.btn, ev.c) # <<>> \/ Lookup(m.p.wheel, ev.c) # <<>>
-          THEN Fail(m1, "C11 I3: mouse code not emitted as its button / scroll event")
-          ELSE Fail(m1, "C11 I1: the key did not come out as the same OS code that went in")
+           m0 == [m EXCEPT !.pending = Tail(@)]
+       IN IF ev.c = LayKey(m.p)
+          THEN LET m1 == [m0 EXCEPT !.nav = IF m.p.lay.mode = "held" THEN ev.p ELSE (IF ev.p THEN ~@ ELSE @)]
+               IN IF out = <<>> THEN m1 ELSE Fail(m1, "C11 I4: the layer key produced output")
+          ELSE
+          LET o == IF ev.p THEN PressedAs(m, ev.c) ELSE HeldAs(m, ev.c)
+              m1 == IF ev.p THEN [m0 EXCEPT !.held = {x \in @ : x.c # ev.c} \cup {[c |-> ev.c, o |-> o]}]
+                    ELSE [m0 EXCEPT !.held = {x \in @ : x.c # ev.c}]
+              exp == Expected(m.p, ev.p, ev.c)
+          IN IF o # ev.c THEN m1                  \* pressed under the second layer
+             ELSE IF InSeq(m.p.pseudo, ev.c)
+             THEN IF out = <<>> \/ out = exp THEN m1
+                  ELSE Fail(m1, "C11 I4: a pseudo code produced foreign output")
+             ELSE IF out = exp THEN m1
+             ELSE IF NoOp(ev.c) THEN Fail(m1, "C11 I2: a reserved no-op code produced output")
+             ELSE IF Lookup(m.p.btn, ev.c) # <<>> \/ Lookup(m.p.wheel, ev.c) # <<>>
+             THEN Fail(m1, "C11 I3: mouse code not emitted as its button / scroll event")
+             ELSE Fail(m1, "C11 I1: the key did not come out as the same OS code that went in")
 
 RECURSIVE MonSilent(_, _, _, _)
 MonSilent(m, n, idle, cb) ==
